@@ -77,7 +77,8 @@ def expect_changing(n, cps, means, variances, seed):
     if any(c < 0 for c in cps):
         return ("error", "negative-changepoint")
     if any(cps[i] > cps[i + 1] for i in range(len(cps) - 1)):
-        return ("error", "unsorted-changepoints")
+        # unsorted changepoints: the statement names no such error class and the segments are not well defined -> not asserted
+        return ("skip",)
     ml = ml * k if len(ml) == 1 else ml
     vl = vl * k if len(vl) == 1 else vl
     if _dims(ml, vl) is None:
